@@ -26,8 +26,8 @@ var (
 		"%2e%2e", "x%2F", "%00", "inbo%78", "%2f", "%7E", "é", "É", "%C3%A9", "%c3%a9", "%C3%89", "liKed", "li%E2%84%AAed", "li%e2%84%aaed", "liKed",
 		"likeſ", "like%C5%BF", "LIKES", "%ff", "%FE", "\xff", "\xfe", "\xe2%84%aa", "\xef\xbf\xbd%84%AA", "%E2%84", "%E2", "\xe2\x84", "a b", "a\"b", "<x>", "[y]", "{z}",
 		"^`|", "\\", "*", "\U0001F600", "%F0%9F%98%80", "İ", "ı", "i", "I", "μ", "µ", "Μ", "%CE%BC", "a+b", "a:b", "%3A", ":"}
-	uSegsBad  = []string{"%", "%4", "%zz", "%4g", "a%"}
-	uQueries  = []string{"", "", "", "?", "?x=1", "?x=1&y=2", "?y=2&x=1", "?x=%2f", "?x=%2F", "?x=/", "?x=%6a", "?x=j", "?x=%4a", "?x=a+b", "?x=a%20b", "?x=a%2Bb", "?x=a b",
+	uSegsBad = []string{"%", "%4", "%zz", "%4g", "a%"}
+	uQueries = []string{"", "", "", "?", "?x=1", "?x=1&y=2", "?y=2&x=1", "?x=%2f", "?x=%2F", "?x=/", "?x=%6a", "?x=j", "?x=%4a", "?x=a+b", "?x=a%20b", "?x=a%2Bb", "?x=a b",
 		"?a=1;b=2", "?a=1;b=2&c=3", "?a=1%3Bb", "?x=%zz&y=1", "?x=%4", "?%78=1", "?x=1&x=1", "?x=1&x=2", "?x=2&x=1", "?=z", "?&&x=1&", "?x=é", "?x=%C3%A9", "?x=%c3%a9",
 		"?x=1?y=2", "?x==1", "?X=1", "?x=%3D%26", "?x", "?x=", "?+=+", "?%20=%20", "?x=%ff", "?x=\xff", "?k=K", "?k=k", "?q=a/b/../c"}
 	uFrags    = []string{"", "", "", "#", "#f", "#F", "#other", "#a%20b", "#%zz", "#a b", "#\x01", "#x#y", "#é", "#a'b", "#!()*", "#%41", "#a%2Fb?c", "#[]"}
